@@ -449,7 +449,13 @@ func (v *Visitor) visit(s *df.AnalyzerState, entrypoint *df.CallNodeArg) error {
 					var added bool
 					stack, added = v.addNext(s, stack, cur, nextNodeWithTrace, cur.Status, df.EdgeInfo{}, seen)
 					if added {
-						v.prevEdgeInfos[graphNode] = append(v.prevEdgeInfos[graphNode], edgeInfo)
+						// The incoming edge map keeps a single edge per source node; when several elements of the
+						// tuple returned by the same call flow to this argument, all the edges are on the source side.
+						if outInfos := nextNode.Out()[graphNode]; len(outInfos) > 0 {
+							v.prevEdgeInfos[graphNode] = append(v.prevEdgeInfos[graphNode], outInfos...)
+						} else {
+							v.prevEdgeInfos[graphNode] = append(v.prevEdgeInfos[graphNode], edgeInfo)
+						}
 					}
 				}
 			}
